@@ -210,5 +210,8 @@ def run(tier, seed):
         v.note("binding_selftest", {"mutants": len(muts), "rejected_with_expected_clause": sum(okm)})
         if not all(okm):
             v.fail_machinery("binding self-test: corrupted traces not rejected as expected: %s" % mf)
+    # C->S on complete (unstubbed) grid generations: all Trace_Topology clauses on the real mesh plus the coordinate clauses
+    from .. import gridprops
+    gridprops.run(v, "C08", tier)
     v.exhaustive = False
     return v
